@@ -109,10 +109,20 @@ package dhcp
 //@   sets relSessions = relSessions + 1
 //@   sets relQuarantined = relQuarantined + ite(quarantine, 1, 0)
 
+// The handlers end a session ONLY through releaseLease: the direct-release ghosts (set by the
+// contracts of the individual release operations when the handler itself calls them) stay 0, so
+// nothing is released for a client without a lease and nothing is released twice.
 //@ func (s *Server) handleRelease
 //@   requires req != nil && s.poolMgr != nil
 //@   ghost relSessions mathint = 0
 //@   ghost relQuarantined mathint = 0
+//@   ghost relPool mathint = 0
+//@   ghost markedUnavailable mathint = 0
+//@   ghost relNAT mathint = 0
+//@   ghost relQoS mathint = 0
+//@   ghost relCacheMAC mathint = 0
+//@   ghost acctStops mathint = 0
+//@   ensures relPool == 0 && markedUnavailable == 0 && relNAT == 0 && relQoS == 0 && relCacheMAC == 0 && acctStops == 0
 //@   ensures lockedN(1, leaseKey(req) in s.leases) && lockedN(1, s.leases[leaseKey(req)]) != nil ==> relSessions == 1 && relQuarantined == 0
 //@   ensures !lockedN(1, leaseKey(req) in s.leases) ==> relSessions == 0
 
@@ -120,6 +130,13 @@ package dhcp
 //@   requires req != nil && s.poolMgr != nil
 //@   ghost relSessions mathint = 0
 //@   ghost relQuarantined mathint = 0
+//@   ghost relPool mathint = 0
+//@   ghost markedUnavailable mathint = 0
+//@   ghost relNAT mathint = 0
+//@   ghost relQoS mathint = 0
+//@   ghost relCacheMAC mathint = 0
+//@   ghost acctStops mathint = 0
+//@   ensures relPool == 0 && markedUnavailable == 0 && relNAT == 0 && relQoS == 0 && relCacheMAC == 0 && acctStops == 0
 //@   ensures lockedN(1, leaseKey(req) in s.leases) && lockedN(1, s.leases[leaseKey(req)]) != nil ==> relSessions == 1 && relQuarantined == 1
 //@   ensures !lockedN(1, leaseKey(req) in s.leases) ==> relSessions == 0
 
@@ -128,6 +145,14 @@ package dhcp
 //@   ghost relSessions mathint = 0
 //@   ghost relQuarantined mathint = 0
 //@   ensures relQuarantined == 0 && relSessions == len(expired)
+// every lease that is torn down was removed from the table in the critical section that found it
+// expired (a concurrent RELEASE / renewal can then neither tear it down again nor revive it)
+//@   ensures forall i int :: 0 <= i && i < len(expired) ==> unlockedN(1, expired[i].mac !in s.leases)
+//@   ghost relPool mathint = 0
+//@   ghost relNAT mathint = 0
+//@   ghost relQoS mathint = 0
+//@   ghost acctStops mathint = 0
+//@   ensures relPool == 0 && relNAT == 0 && relQoS == 0 && acctStops == 0
 
 // every lease collected as expired (and removed from the table in the same critical section) is torn down
 //@ loop Server.cleanupExpiredLeases#2
